@@ -234,6 +234,32 @@ def check_set(res, v, t):
         res.violation('reparse|%s|%s' % (fam(v), shape), 'v%s set %r: parse_message(ref).to_er7() = %r, reference %r' % (v, t, back, want), point, 2)
     if not same_ec(pec, ec, v):
         res.violation('reparse-readback|%s|%s' % (fam(v), shape), 'v%s set %r: parsed message reports %r' % (v, t, pec), point, 2)
+    # segments that the message structure does not list (a Z segment, a standard segment of another message) are split with
+    # the delimiters of MSH-1 / MSH-2 like every other segment
+    F, C, S_, R = ec['FIELD'], ec['COMPONENT'], ec['SUBCOMPONENT'], ec['REPETITION']
+    extra = ['ZZ1' + F + 'a' + C + 'b' + S_ + 'c' + F + 'd' + R + 'e', 'MSA' + F + 'AA' + F + 'x' + C + 'y']
+    for fg in (True, False):
+        for pos in (1, 2):
+            lines = want.split('\r')
+            text2 = '\r'.join(lines[:pos + 1] + extra[pos - 1:pos] + lines[pos + 1:])
+            res.transitions += 1
+            try:
+                p2 = parse_message(text2, find_groups=fg)
+                back2 = p2.to_er7()
+                bad = [d for d in descendants(p2) if not same_ec(d.encoding_chars, ec, v)]
+            except Exception as e:
+                if common.is_lib_exc(e) and pos == 2 and fg:
+                    res.unspecified['standard segment outside the structure refused by the group finder'] += 1
+                    continue
+                res.violation('reparse-raises|unlisted-segment|%s|%s' % (fam(v), exc_class(e)), 'parse_message(%r, find_groups=%s): %s: %s'
+                              % (text2, fg, exc_class(e), e), point, 3)
+                continue
+            if back2 != text2:
+                res.violation('reparse|unlisted-segment|%s|%s|fg=%s' % (fam(v), shape, fg), 'v%s set %r: parse_message(%r, find_groups=%s).to_er7() = %r'
+                              % (v, t, text2, fg, back2), point, 3)
+            elif bad:
+                res.violation('reparse-readback|unlisted-segment|%s|%s' % (fam(v), type(bad[0]).__name__), 'v%s set %r: %r of a segment outside the structure reports '
+                              '%r' % (v, t, bad[0], bad[0].encoding_chars), point, 3)
     if got == want:
         try:
             again = parse_message(got).to_er7()
@@ -266,7 +292,21 @@ def check_defects(res, v):
     from hl7apy.exceptions import InvalidEncodingChars
     from hl7apy.parser import parse_message, parse_segment
     from hl7apy import check_encoding_chars, set_default_encoding_chars
-    for name, d in defect_sets(v):
+    # every defective set is offered twice: as the first thing the process sees, and again after the valid sets it derives
+    # from have been used (whatever the checks remember of a valid set must not let a defective one through)
+    passes = [(name, d, '') for name, d in defect_sets(v)]
+    passes.append(None)
+    passes += [(name, d, '|after-valid-use') for name, d in defect_sets(v)]
+    for item in passes:
+        if item is None:
+            base = {'FIELD': '|', 'COMPONENT': '^', 'SUBCOMPONENT': '&', 'REPETITION': '~', 'ESCAPE': '\\'}
+            for good in ([dict(base), dict(base, TRUNCATION='#')] if v >= '2.7' else [dict(base)]):
+                check_encoding_chars(dict(good))
+                Message('ADT_A01', version=v, encoding_chars=dict(good)).to_er7()
+                parse_segment('PID|1', version=v, encoding_chars=dict(good))
+            continue
+        name, d, when = item
+        name += when
         for how in ('Message', 'check', 'parse_segment'):
             res.evaluations += 1
             res.enumerated += 1
